@@ -4,7 +4,7 @@
 
 use crate::engine::{idx, Ctx, Obs, PropResult, Scratch};
 use crate::mapmodel::conv::from_quill;
-use crate::mapmodel::gen::{draws, edit, mapset, GenCfg, TargetStyle};
+use crate::mapmodel::gen::{draws, edit_keeping, mapset, GenCfg, TargetStyle};
 use crate::mapmodel::refops::{self, contract_inner, extend_inner, Extended};
 use crate::mapmodel::{text, MapSet};
 use crate::version_graph::{Split, VersionGraph};
@@ -37,14 +37,18 @@ pub struct Case {
 	/// they may close cycles of any length with any number of entry points, or leave the graph acyclic
 	#[serde(default)]
 	pub extra: Vec<(u16, u16)>,
+	/// malformed == 2: how the second root file is named (0 = an unrelated name; otherwise a name sharing a half with the root's)
+	#[serde(default)]
+	pub variant: u8,
 }
 
 fn strategy() -> impl Strategy<Value = Case> {
-	let cfg = GenCfg { ns_min: 2, ns_max: 2, p_missing: 0, style: TargetStyle::Simple, param_src_names: false, max_classes: 5, p_nested: 45, ..GenCfg::default() };
+	let cfg = GenCfg { ns_min: 2, ns_max: 2, p_missing: 10, style: TargetStyle::Simple, param_src_names: false, max_classes: 5, p_nested: 45, ..GenCfg::default() };
 	let node = (proptest::collection::vec(any::<u16>(), 1..3), prop_oneof![2 => Just(false), 1 => Just(true)], draws(), prop_oneof![1 => Just(0u8), 3 => 1u8..=9]).prop_map(|(parents, split_name, edits, style)| Node { parents, split_name, edits, style });
-	(mapset(cfg), proptest::collection::vec(node, 1..8), proptest::collection::vec(any::<u16>(), 24), proptest::collection::vec(any::<u16>(), 24), prop_oneof![5 => Just(0u8), 1 => 1u8..7, 1 => Just(4u8)], proptest::collection::vec(any::<(u16, u16)>(), 0..4)).prop_map(|(mut root, nodes, order1, order2, malformed, extra)| {
+	let roots = prop_oneof![3 => mapset(GenCfg { p_missing: 0, ..cfg.clone() }), 2 => mapset(cfg)];
+	(roots, proptest::collection::vec(node, 1..8), proptest::collection::vec(any::<u16>(), 24), proptest::collection::vec(any::<u16>(), 24), prop_oneof![5 => Just(0u8), 1 => 1u8..7, 1 => Just(4u8)], proptest::collection::vec(any::<(u16, u16)>(), 0..4), any::<u8>()).prop_map(|(mut root, nodes, order1, order2, malformed, extra, variant)| {
 		root.ns = vec!["calamus".into(), "named".into()];
-		Case { root, nodes, order1, order2, malformed, extra }
+		Case { root, nodes, order1, order2, malformed, extra, variant }
 	})
 }
 
@@ -102,7 +106,7 @@ fn build(case: &Case) -> Result<Built, String> {
 		ps.sort();
 		ps.dedup();
 		// the child is derived from its first parent; every parent edge is the diff parent -> child
-		let mut m = edit(&contracted[ps[0]], 1, &n.edits);
+		let mut m = edit_keeping(&contracted[ps[0]], 1, &n.edits, true);
 		fix_docs(&mut m);
 		names.push(node_name(k, n));
 		contracted.push(m);
@@ -117,7 +121,7 @@ fn build(case: &Case) -> Result<Built, String> {
 	};
 	files.push((format!("{}.tiny", names[0]), text::tiny(&root_ext, 0)));
 	for (p, c) in &edges {
-		let d = refops::diff(&contracted[*p], &contracted[*c]).ok_or_else(|| "diff not expressible".to_string())?;
+		let d = refops::diff_partial(&contracted[*p], &contracted[*c]).ok_or_else(|| "diff not expressible".to_string())?;
 		files.push((format!("{}#{}.tinydiff", names[*p], names[*c]), text::tinydiff(&d, 0)));
 	}
 	Ok(Built { names, contracted, edges, files })
@@ -210,7 +214,7 @@ fn graph_queries(g: &VersionGraph, built: &Built, obs: &mut Obs) -> PropResult {
 			match g.get_diff(va, vb) {
 				Ok(Some(d)) if is_edge => {
 					let got = crate::mapmodel::conv::diff_from_quill(&d).map_err(|e| format!("harness: diff not readable: {e:#}"))?.normalised();
-					let want = refops::diff(&built.contracted[a], &built.contracted[b]).ok_or("harness: diff not expressible")?.normalised();
+					let want = refops::diff_partial(&built.contracted[a], &built.contracted[b]).ok_or("harness: diff not expressible")?.normalised();
 					if got != want {
 						return Err(format!("get_diff({:?}, {:?}) is not the content of the edge file between the two versions", built.names[a], built.names[b]));
 					}
@@ -248,7 +252,20 @@ fn check(case: &Case, obs: &mut Obs) -> PropResult {
 			must_fail_resolve = true;
 		}
 		2 => {
-			files.push(("second-root.tiny".into(), built.files[0].1.clone()));
+			// a second .tiny file: under an unrelated name, or under a name that shares one half with the root's
+			let root = &built.names[0];
+			let (h1, h2) = root.split_once('~').unwrap_or((root.as_str(), root.as_str()));
+			let second = match case.variant % 6 {
+				0 => "second-root".to_string(),
+				1 => format!("{h1}~second-root"),
+				2 => format!("second-root~{h2}"),
+				3 if root.contains('~') => h1.to_string(),
+				4 if root.contains('~') => h2.to_string(),
+				3 | 4 => format!("{root}~{root}x"),
+				_ => format!("{h2}~{h1}x"),
+			};
+			obs.label(format!("second_root:{}", ["unrelated", "shares_first_half", "shares_second_half", "is_first_half", "is_second_half", "halves_swapped"][(case.variant % 6) as usize]));
+			files.push((format!("{second}.tiny"), built.files[0].1.clone()));
 			must_fail_resolve = true;
 		}
 		3 if n >= 2 => {
@@ -270,7 +287,7 @@ fn check(case: &Case, obs: &mut Obs) -> PropResult {
 				if a == b || edges.contains(&(a, b)) {
 					continue;
 				}
-				let Some(d) = refops::diff(&built.contracted[a], &built.contracted[b]) else { continue };
+				let Some(d) = refops::diff_partial(&built.contracted[a], &built.contracted[b]) else { continue };
 				files.push((format!("{}#{}.tinydiff", built.names[a], built.names[b]), text::tinydiff(&d, 0)));
 				edges.push((a, b));
 			}
@@ -435,13 +452,15 @@ fn check(case: &Case, obs: &mut Obs) -> PropResult {
 	obs.label_if(built.names.iter().any(|x| built.names.iter().any(|y| y != x && y.starts_with(x.as_str()))), "version_name_prefix_of_another");
 	obs.label_if(case.order1 != case.order2, "two_creation_orders");
 	obs.label(format!("malformed={}", case.malformed));
+	let gains_name = built.edges.iter().any(|(p, c)| built.contracted[*p].classes.iter().any(|(k, pc)| built.contracted[*c].classes.get(k).map_or(false, |cc| (pc.names[1].is_none() && cc.names[1].is_some() && (pc.doc.is_some() || !pc.fields.is_empty() || !pc.methods.is_empty())) || pc.methods.iter().any(|(mk, pm)| cc.methods.get(mk).map_or(false, |cm| pm.names[1].is_none() && cm.names[1].is_some() && (pm.doc.is_some() || !pm.params.is_empty()))))));
+	obs.label_if(gains_name, "edge_names_an_unnamed_entry_that_has_children");
 	obs.nontrivial_if(n >= 3 && max_depth >= 2 && case.malformed == 0);
 	Ok(())
 }
 
 pub fn run(ctx: &mut Ctx) {
 	crate::engine::silence_stderr();
-	ctx.rule = "rooted graphs of 1-8 versions (each later version has 1-2 parents among the earlier ones: chains, trees, diamonds; plain and client~server names); each version's mappings derive from its first parent by a generated edit script (entries dropped/added, renames, comment edits at all levels), every edge file is the harness-written .tinydiff of the model-level diff between the contracted sets, the root file the harness-written .tiny with extended inner names; files are created in two generated orders inside fresh tmpfs directories (tmpfs lists in reverse creation order). Oracle: for every version and every name/half: get() finds it with the right split kind, and apply_diffs == extend(model of that version) (or an error where the outer class of a named nested class is gone); both creation orders give the same answers; get_all answers like get per name and refuses a list with one unknown name, only the root reports root mappings, get_diff reports exactly the edge file's diff (nothing where there is no edge); version names are spelled v3 / c3~s3 or the way the Feather repository spells them (dots, dashes, -client/-server, names that are prefixes of each other or contain the text of the file extensions); malformed variants (no root, two roots, cycle through / below the root, version only below an undeclared parent, unknown name) must be refused by resolve or by every query on the defect. Non-trivial = >=3 versions and a queried path of >=2 edges in a well-formed directory; distinct by case hash".into();
+	ctx.rule = "rooted graphs of 1-8 versions (each later version has 1-2 parents among the earlier ones: chains, trees, diamonds; plain and client~server names); each version's mappings derive from its first parent by a generated edit script (entries dropped/added, renames, comment edits at all levels; a tenth of the root's entries have no name in `named`, keep their children and comments, and may gain the name on a later edge), every edge file is the harness-written .tinydiff of the model-level diff between the contracted sets, the root file the harness-written .tiny with extended inner names; files are created in two generated orders inside fresh tmpfs directories (tmpfs lists in reverse creation order). Oracle: for every version and every name/half: get() finds it with the right split kind, and apply_diffs == extend(model of that version) (or an error where the outer class of a named nested class is gone); both creation orders give the same answers; get_all answers like get per name and refuses a list with one unknown name, only the root reports root mappings, get_diff reports exactly the edge file's diff (nothing where there is no edge); version names are spelled v3 / c3~s3 or the way the Feather repository spells them (dots, dashes, -client/-server, names that are prefixes of each other or contain the text of the file extensions); malformed variants (no root, two roots - the second under an unrelated name or one sharing a half with the root's -, cycle through / below the root, version only below an undeclared parent, unknown name) must be refused by resolve or by every query on the defect. Non-trivial = >=3 versions and a queried path of >=2 edges in a well-formed directory; distinct by case hash".into();
 	ctx.assume("in a diamond all parents lead to the same child mappings (every path is valid)");
 	ctx.assume("directory listing orders other than those tmpfs produces for the generated creation orders are not reachable");
 	ctx.run_sub("version_graph", ctx.tier.pick(72000, 1200000), strategy, check);
